@@ -76,6 +76,20 @@ def NameOk (n : Str) : Prop :=
 def ValOk (v : Str) : Prop :=
   ∀ c ∈ v, attrCharOk c = true ∧ c ≠ '&' ∧ c ≠ '<' ∧ c ≠ '>' ∧ c ≠ '"'
 
+/-- the children of a text-bearing element written as ONE string: text as it is, an element as
+    `\x00 attribute-values \x00` (for an `output`: its `value`); the check's oracle uses the same encoding -/
+def flatKids : List Node → Str
+  | [] => []
+  | .text _ s :: r => s ++ flatKids r
+  | .elem _ a _ :: r => Char.ofNat 0 :: ((a.map (·.2)).flatten ++ Char.ofNat 0 :: flatKids r)
+
+/-- a cell written the same way: literal chunks (line ends normalised) and `\x00 xpath \x00` per reference -/
+def flatItems : List (Str × Str) → Str
+  | [] => []
+  | (v, t) :: rest => Char.ofNat 0 :: (v ++ Char.ofNat 0 :: (normEol t ++ flatItems rest))
+
+def flatCell (head : Str) (items : List (Str × Str)) : Str := normEol head ++ flatItems items
+
 mutual
 /-- tags and attribute names, nothing else -/
 inductive Shape where
